@@ -977,6 +977,23 @@ func (m *monitors) replacedAtElection(name string, s int64, v *shardView, off, t
 		name, s, v.Term, off, term, rec.by, rec.term, rec.inTerm, why, termsOf(v.Wal), note+m.electionFactsLocked(s, v.Term))
 }
 
+// appliedOffset reads the commit offset a node's DB has stored (-1 when it cannot be read right now).
+func appliedOffset(v *shardView) (off int64) {
+	off = wal.InvalidOffset
+	if v.DB == nil {
+		return
+	}
+	defer func() {
+		if recover() != nil {
+			off = wal.InvalidOffset
+		}
+	}()
+	if o, err := v.DB.ReadCommitOffset(); err == nil {
+		off = o
+	}
+	return
+}
+
 type commitRec struct {
 	term, inTerm int64
 	by           string
@@ -1026,7 +1043,19 @@ func (m *monitors) ledgerStep(s int64, views map[string]*shardView) {
 	}
 	for _, name := range names {
 		v := views[name]
-		if v.Wal == nil || v.CommitOffset < 0 {
+		if v.Wal == nil {
+			continue
+		}
+		if v.IsLeader {
+			// a leader's view carries its quorum commit offset; what its DB has applied counts as well
+			if a := appliedOffset(v); a > v.CommitOffset {
+				vv := *v
+				vv.CommitOffset = a
+				v = &vv
+				m.c.r.Count("leader_controller_db_offset_used", 1)
+			}
+		}
+		if v.CommitOffset < 0 {
 			continue
 		}
 		key := fmt.Sprintf("%s/%d", name, s)
@@ -1046,6 +1075,7 @@ func (m *monitors) ledgerStep(s int64, views map[string]*shardView) {
 		if err != nil {
 			continue
 		}
+		var fresh *proto.LogEntry // the highest entry this node is the first to apply as committed
 		for _, e := range ents {
 			if e.Offset > v.CommitOffset {
 				break
@@ -1053,6 +1083,7 @@ func (m *monitors) ledgerStep(s int64, views map[string]*shardView) {
 			rec, ok := led[e.Offset]
 			if !ok {
 				led[e.Offset] = commitRec{term: e.Term, inTerm: v.Term, by: name}
+				fresh = e
 				continue
 			}
 			if rec.term != e.Term && v.IsLeader {
@@ -1067,6 +1098,40 @@ func (m *monitors) ledgerStep(s int64, views map[string]*shardView) {
 			}
 		}
 		m.c.r.Count("commit_ledger_rounds", 1)
+		if fresh != nil {
+			// committed means held by a majority: the first node to apply an entry finds it in the logs (or
+			// the applied state) of a majority of the replicas.  Nodes that cannot be looked at right now
+			// (down, restarting, replica deleted) count as holders.
+			holders, lacking := 0, []string{}
+			for _, other := range m.c.cl.NodeNames {
+				ov := views[other]
+				if ov == nil || ov.Wal == nil {
+					holders++
+					continue
+				}
+				if ov.CommitOffset >= fresh.Offset && other != name {
+					holders++
+					continue
+				}
+				has := false
+				if logEnd(ov.Wal) >= fresh.Offset && ov.Wal.FirstOffset() <= fresh.Offset {
+					if es, err := readLog(ov.Wal, fresh.Offset-1); err == nil && len(es) > 0 && es[0].Offset == fresh.Offset && es[0].Term == fresh.Term {
+						has = true
+					}
+				}
+				if has {
+					holders++
+				} else {
+					lacking = append(lacking, fmt.Sprintf("%s(log %s)", other, strings.TrimSpace(termsOf(ov.Wal))))
+				}
+			}
+			m.c.r.Count("first_applies_checked_for_quorum", 1)
+			if need := int(m.c.o.RF)/2 + 1; holders < need {
+				m.fail("C03", "applied-without-quorum", "%s (term %d, leader=%v) applied offset %d (entry of term %d) of shard %d as committed, but only %d of the %d nodes hold that entry or could hold it (a majority of the %d replicas is %d); lacking it: %s; own log %s%s",
+					name, v.Term, v.IsLeader, fresh.Offset, fresh.Term, s, holders, len(m.c.cl.NodeNames), m.c.o.RF, need, strings.Join(lacking, ", "), termsOf(v.Wal), m.electionFactsLocked(s, -1))
+				return
+			}
+		}
 	}
 }
 
